@@ -547,6 +547,16 @@ func runC08(p *core.Prog, r *core.Report, tier string) {
 				if c.Op != "==" && c.Op != "!=" {
 					return -1
 				}
+				// no error was handed in: returning nil clears nothing
+				for _, side := range [][2]*core.VD{{c.X, c.Y}, {c.Y, c.X}} {
+					if prm, ok := side[0].Val.(*ssa.Parameter); ok && core.IsErrorType(prm.Type()) && side[1].Kind == "const" && side[1].Name == "nil" {
+						for e := 0; e < 2; e++ {
+							if c.RelOnEdge(e) == "==" {
+								return e
+							}
+						}
+					}
+				}
 				for _, side := range [][2]*core.VD{{c.X, c.Y}, {c.Y, c.X}} {
 					if s, ok := constString(side[1].Val); ok && side[0].MentionsCall("serviceInfo") {
 						_ = s
